@@ -13,7 +13,7 @@ from __future__ import annotations
 
 from typing import Any, List
 
-from .common import call, same, is_symbolic, PathAbort, mk_array, replay_tiers
+from .common import call, same, close, is_symbolic, PathAbort, mk_array, replay_tiers
 
 PROP = "C13"
 
@@ -220,6 +220,93 @@ def make_lambda_harness(n: int, imaginary: bool, route: str):
     return harness
 
 
+def make_mrq_harness(order: str):
+    """m(RQ)-fit: the DRT written down for a fitted circuit is the sum of the DRTs of its parallel elements, each computed from
+    that element's own parameters: a Gaussian of width W centred at tau = R*C for (RC), the analytical RQ distribution centred at
+    (R*Y)^(1/n) for (RQ) -- whatever the order of the elements"""
+    def harness(eng):
+        import numpy as np
+        import pyimpspec.analysis.drt.mrq_fit as mq
+        from pyimpspec import parse_cdc
+        from sx import symnp
+        from sx.values import pi_val
+        eng.div_zero_policy = "assume"
+        R1, C1 = eng.real("R_rc"), eng.real("C_rc")
+        R2, Y2, n2 = eng.real("R_rq"), eng.real("Y_rq"), eng.real("n_rq")
+        for v in (R1, C1, R2, Y2):
+            eng.assume(v > 0)
+        eng.assume(n2 > 0)
+        eng.assume(n2 < 0.98)                      # (|n| within 0.01 of 1 is treated as a capacitor by design)
+        W = eng.real("W")
+        eng.assume(W > 0)
+        circuit = parse_cdc({"rc.rq": "R(RC)(RQ)", "rq.rc": "R(RQ)(RC)", "rc": "R(RC)", "rq": "R(RQ)"}[order])
+        els = circuit.get_elements()
+        k = 1
+        for part in order.split("."):
+            if part == "rc":
+                els[k].set_values(R=R1)
+                els[k + 1]._set_limits({"C": 0.0}, {"C": float("inf")})
+                els[k + 1].set_values(C=C1)
+            else:
+                els[k].set_values(R=R2)
+                els[k + 1]._set_limits({"Y": 0.0}, {"Y": float("inf")})
+                els[k + 1].set_values(Y=Y2, n=n2)
+            k += 2
+        f = np.array([100.0, 10.0, 1.0])
+        tau, gamma = mq._calculate_tau_gamma(circuit, f, W, 1)
+        _nonvacuous(eng)
+        pi = pi_val() if eng.symbolic else 3.141592653589793
+        want = [0 for _ in range(len(tau))]
+        for i, t in enumerate(list(tau.flat) if hasattr(tau, "flat") else list(tau)):
+            if "rc" in order:
+                x = symnp.log(t / (R1 * C1)) / W
+                want[i] = want[i] + R1 / (W * symnp.sqrt(pi)) * symnp.exp(-(x ** 2))
+            if "rq" in order:
+                t0 = (R2 * Y2) ** (1.0 / n2)
+                want[i] = want[i] + (R2 / (2 * pi)) * symnp.sin((1 - n2) * pi) / (symnp.cosh(n2 * symnp.log(t / t0)) - symnp.cos((1 - n2) * pi))
+        g = list(gamma.flat)
+        eng.check(len(g) == len(want), "mrq:one gamma per time constant")
+        for i in range(min(len(g), len(want))):
+            eng.check(close(g[i], want[i]), "mrq:the DRT is the sum of each parallel element's own distribution (Gaussian at R*C / RQ distribution at (R*Y)^(1/n))",
+                      lambda: "tau index %d: %r vs %r" % (i, g[i], want[i]))
+        eng.reached("mrq")
+    return harness
+
+
+def make_corner_harness(extra: int):
+    """golden-section L-curve corner search: for an arbitrary objective (symbolic values) the regularisation parameters it evaluates
+    start as a strictly increasing quadruple spanning [minimum, maximum], later ones lie strictly inside it and are new, and the
+    parameter returned is one of those evaluated"""
+    def harness(eng):
+        import pyimpspec.analysis.drt.utility as du
+        eng.div_zero_policy = "assume"
+        seen = []
+
+        def P(lm):
+            if len(seen) >= 4 + extra:
+                raise PathAbort("bound on the number of objective evaluations reached")
+            seen.append(lm)
+            k = len(seen)
+            if k == 4:
+                eng.check(all(float(seen[i]) < float(seen[i + 1]) for i in range(3)) and float(seen[0]) == lo and float(seen[3]) == hi,
+                          "corner:the search starts from an increasing quadruple spanning the interval", lambda: "%r" % (seen,))
+            elif k > 4:
+                eng.check(lo < float(lm) < hi, "corner:every later evaluation lies strictly inside the interval", lambda: "%r" % (lm,))
+                eng.check(all(float(lm) != float(x) for x in seen[:-1]), "corner:every evaluation is at a new parameter", lambda: "%r in %r" % (lm, seen[:-1]))
+            eng.reached("corner")
+            xi, eta = eng.real("xi%d" % k, npy=True), eng.real("eta%d" % k, npy=True)
+            if not eng.symbolic:
+                import numpy
+                xi, eta = numpy.float64(xi), numpy.float64(eta)        # the real objective returns numpy scalars
+            return (xi, eta)
+        lo, hi = 1e-10, 1.0
+        ok, res = call(du._l_curve_corner_search, P, lo, hi)
+        eng.check(ok, "corner:the search does not fail", lambda: "%r" % (res,))
+        if ok:
+            eng.check(any(float(res) == float(x) for x in seen), "corner:the parameter returned was evaluated", lambda: "%r" % (res,))
+    return harness
+
+
 def make_rpol_harness(k: int):
     """R_pol > 0 for R0 + k parallel RC elements with positive resistances (k = 1, 2)"""
     def harness(eng):
@@ -273,6 +360,13 @@ def obligations(tier: str):
                                       "_l_curve_corner_search / _suggest_lambda / _generate_lambda_values: evaluate the real objective at 2 symbolic trial values, return a symbolic lambda",
                                       "norm / log inside the L-curve objective return arbitrary reals (their values only steer the stubbed search)"],
                                   expect_reach=["non-vacuous"], mode="fresh", query_timeout_ms=60000))
+    # (a 'corner' obligation on _l_curve_corner_search with a symbolic objective exists below as make_corner_harness but is not registered:
+    #  the Menger-curvature comparisons are quartic with square roots and z3 answers unknown after two iterations)
+    import pyimpspec.analysis.drt.mrq_fit as mq
+    for order in ("rc", "rq", "rc.rq", "rq.rc"):
+        obs.append(Obligation("mrq.%s" % order, make_mrq_harness(order), bounds="m(RQ)-fit _calculate_tau_gamma for R + %s with symbolic R, C, Y, n in (0, 0.98), W > 0; 3 time constants" % order,
+                              functions=[mq._calculate_tau_gamma], stubs=["exp, ln, sqrt, sin, cos, cosh and non-integer powers are uninterpreted with eager congruence"],
+                              expect_reach=["mrq"], mode="fresh", query_timeout_ms=60000))
     for k in (1, 2):
         obs.append(Obligation("rpol.%d" % k, make_rpol_harness(k), bounds="R0 + %d RC element(s), 3 frequencies" % k, functions=funcs, expect_reach=["non-vacuous"], mode="fresh"))
     for o in obs:
@@ -285,7 +379,7 @@ EXPLANATION = (
     "scale factors are solver variables; the non-negative least-squares solver is a deterministic uninterpreted function."
 )
 ASSUMPTIONS = ["nnls contract: deterministic, g >= 0", "fixed regularisation parameter (the lambda search is outside)", "floats as reals"]
-OUTSIDE = ["area and peak positions of an actual NNLS solution; lambda selection", "the Loewner method, m(RQ)-fit, BHT, TR-RBF", "everything the property says about integrals and peaks"]
+OUTSIDE = ["area and peak positions of an actual NNLS solution; the lambda selection heuristics themselves (L-curve corner search, the custom approach)", "the Loewner method, BHT, TR-RBF, the fitting step of m(RQ)-fit (its tau/gamma formula is covered)", "everything the property says about integrals and peaks"]
 
 
 def replay(obligation: str, witness):
